@@ -2,6 +2,7 @@
    i.e. values computed by the compiled code itself).  Do not edit. -/
 namespace Refinery.Gen.Deadline
 
+def cacheImpactFactor : Int := 4
 def cfgDefaultMaxExpired : Int := 3000
 def cfgDefaultSendDelay : Int := 2000000000
 def cfgDefaultSendTicker : Int := 100000000
